@@ -171,10 +171,12 @@ Definition pdmul (a k : Z) : Z := sat_i128 (a * k).
 Definition pddiv (a k : Z) : res Z :=
   if k =? 0 then Panic 1 else Ok (sat_i128 (Z.quot a k)).
 (* Timestamp::from_seconds_nanos_since_unix_epoch(seconds: u64, nanos: u32):
-   (u128::from(seconds) << 64) + ((u128::from(nanos) << 64) / 10^9) ; no overflow possible *)
+   (u128::from(seconds) << 64) + ((u128::from(nanos) << 64) / 10^9) ; the + can only
+   overflow (wrap in release) for nanos >= 10^9 *)
 Definition pt_from_secs_nanos (secs nanos : Z) : Z :=
-  secs * 2 ^ 64 + (nanos * 2 ^ 64) / 1000000000.
+  wrap 128 (secs * 2 ^ 64 + (nanos * 2 ^ 64) / 1000000000).
 (* Duration::from_seconds_nanos(seconds: i64, nanos: u32):
-   ((seconds as i128) << 64) + (((nanos as i128) << 64) / 10^9) ; no overflow possible *)
+   ((seconds as i128) << 64) + (((nanos as i128) << 64) / 10^9) ; the + can only
+   overflow (wrap in release) for nanos >= 10^9 *)
 Definition pd_from_secs_nanos (secs nanos : Z) : Z :=
-  secs * 2 ^ 64 + (nanos * 2 ^ 64) / 1000000000.
+  to_signed 128 (secs * 2 ^ 64 + (nanos * 2 ^ 64) / 1000000000).
